@@ -342,11 +342,12 @@ C15_Accept(c, trk, call, o) ==
          \/ (o.k = "some" /\ Has(o.v, "at") /\ o.v.at = f.it.at /\ o.v.sv = RoundUp8(f.it.size))
          \/ (o.k = "some" /\ Has(o.v, "k") /\ (o.v.k = "err" \/ (o.v.v.at = f.it.at /\ o.v.v.sv = RoundUp8(f.it.size))))
 \* C17 (parse side): NUL / UTF-8 rules inside the declared size
-\* ... and the Debug rendering of a string tag shows the accessor's result: Ok("...") exactly when the string is one
+\* ... and the Debug rendering of a string tag never shows an Ok("...") string where the accessor refuses the bytes (how
+\* Debug renders a valid string is not specified: only that it does not present as a string what is not one)
 C17_Accept(c, trk, call, o) ==
   IF call.op = "dbg" /\ trk.loaded = "bi" /\ o.k = "unit" /\ Has(o, "sok") /\ call.what \in {"cmdline", "bootloader"} THEN
      LET g == EffGet(c.mem, call.what)  K == InfoKind(call.what) IN
-     g.k = "must" => o.sok = (IF StrSpec(Bytes(c.mem, g.it.at + K.base, g.it.size - K.base), g.it.at + K.base).k = "ok" THEN 1 ELSE 0)
+     (g.k = "must" /\ StrSpec(Bytes(c.mem, g.it.at + K.base, g.it.size - K.base), g.it.at + K.base).k # "ok") => o.sok = 0
   ELSE IF call.op # "str" THEN TRUE ELSE AcceptInfoRead(c, trk, call, o)
 \* a getter / accessor whose walk panics before a match must panic (C03)
 C03_InfoRead(c, trk, call, o) ==
@@ -398,6 +399,17 @@ ElfDeprValid(c) ==
   /\ LET p == ElfParams(c.mem, ElfIt(c)) IN p.shndx < Far /\ MulFits(p.es, p.shndx, ElfIt(c).size)
 AcceptElfDeprecated(c, trk, o) ==
   IF trk.loaded # "bi" THEN o.k = "skipped" ELSE AcceptIterNew(c, "elf", ElfDeprValid(c), o)
+\* C05 for the two kinds whose variable-length part is exposed through an iterator: whatever iteration hands out (by any
+\* route: the tag's own method, the deprecated getter, nth / last) lies inside the variable-length part of the tag - a
+\* descriptor inside the map bytes, a section only from a table that fits the tag - and Debug formatting, which
+\* iterates as well, ends in a controlled way
+C05_IterAccept(c, trk, call, o) ==
+  CASE call.op \in {"next", "nth", "last"} /\ HasIt(trk, call.it) /\ ItOf(trk, call.it).kind = "efi" /\ HasTagIt(c, "efi_mmap") ->
+         \A e \in Exts(o) : Inside(e, EfiIt(c).at + 16, EfiIt(c).at + EfiIt(c).size)
+    [] call.op \in {"next", "nth", "last"} /\ HasIt(trk, call.it) /\ ItOf(trk, call.it).kind = "elf" /\ HasTagIt(c, "elf") ->
+         ~ElfFits(ElfParams(c.mem, ElfIt(c))) => o.k # "some"
+    [] call.op = "dbg" /\ call.what \in {"efi_mmap", "elf"} -> Controlled(o)
+    [] OTHER -> TRUE
 \* C04: first-match selection and exact decoding for conformant tags (and "nothing" when absent)
 C04_Accept(c, trk, call, o) ==
   IF call.op = "elf_sections_deprecated" /\ trk.loaded = "bi" THEN
@@ -897,7 +909,7 @@ AcceptP(p, c0, trk, call, o) ==
     [] p = "C02" -> C02_Accept(c, trk, call, o)
     [] p = "C03" -> C03_Accept(c, trk, call, o) /\ C03_InfoRead(c, trk, call, o)
     [] p = "C04" -> C04_Accept(c, trk, call, o)
-    [] p = "C05" -> C05_Accept(c, trk, call, o) /\ C05_HAccept(c, trk, call, o)
+    [] p = "C05" -> C05_Accept(c, trk, call, o) /\ C05_HAccept(c, trk, call, o) /\ C05_IterAccept(c, trk, call, o)
     [] p = "C06" -> C06_Accept(c, trk, call, o)
     [] p = "C07" -> C07_Accept(c, trk, call, o)
     [] p = "C12" -> C12_Accept(c, trk, call, o)
